@@ -277,6 +277,43 @@ theorem readStriped_pure (cv : Int → Option Int) (h : Heap) (src : Buf) (dst :
     | panic h2 p => rw [hr] at e; simp [Res.bind] at e
     | unspec => rw [hr] at e; simp [Res.bind] at e
 
+/-- a writer's stores through `b.Slice(s, e)`: every one of them is a `storeAct` inside frames `[s, e)` -/
+def InWindow (b : Buf) (s e : Nat) (a : Act (Nat × Nat) (Option Int)) : Prop :=
+  ∃ j x, a = storeAct b.blk j x ∧ b.off + b.ch * s ≤ j ∧ j < b.off + b.ch * e
+
+/-- **writers confined to disjoint frame ranges of one buffer**: whatever each of them stores, in
+whatever order the scheduler interleaves the two threads, the memory at the end is the memory of the
+sequential run (first writer, then second writer) – and hence does not depend on the schedule. -/
+theorem disjoint_windows_schedule_irrelevant (b : Buf) (s1 e1 s2 e2 : Nat) (hdis : e1 ≤ s2)
+    (t1 t2 σ : Thread (Nat × Nat) (Option Int))
+    (h1 : ∀ a ∈ t1, InWindow b s1 e1 a) (h2 : ∀ a ∈ t2, InWindow b s2 e2 a)
+    (hσ : Interleave t1 t2 σ) (m : Mem (Nat × Nat) (Option Int)) :
+    solo σ m = solo t2 (solo t1 m) := by
+  apply interleave_eq_seq hσ
+  · intro a ha; obtain ⟨j, x, rfl, _, _⟩ := h1 a ha; exact storeAct_sound _ _ _
+  · intro a ha; obtain ⟨j, x, rfl, _, _⟩ := h2 a ha; exact storeAct_sound _ _ _
+  · intro a ha c hc
+    obtain ⟨j, x, rfl, l1, u1⟩ := h1 a ha
+    obtain ⟨j', y, rfl, l2, u2⟩ := h2 c hc
+    apply store_indep
+    intro heq
+    injection heq with _ hj
+    have : b.ch * e1 ≤ b.ch * s2 := Nat.mul_le_mul_left _ hdis
+    omega
+
+/-- the stores the model performs for `SetSample` through a slice are `InWindow` actions (by
+`slice_store_window` and `absH_store`) – so the theorem above applies to the model's writers -/
+theorem model_store_inWindow (hp : Heap) (b c : Buf) (hch : 1 ≤ b.ch) (hcap : (b.cap : Int) < 2^63)
+    (s e : Nat) (hse : s ≤ e) (he : e ≤ b.capacity) (hs : b.slice (s : Int) (e : Int) = some c)
+    (hw : b.wf hp) (i : Nat) (x : Int) (h' : Heap) (hst : c.setSample hp (i : Int) x = some h') :
+    ∃ a, InWindow b s e a ∧ absH h' = a.run (absH hp) := by
+  obtain ⟨j, hj, l, u⟩ := slice_store_window hp b c hch hcap s e hse he hs i x h' hst
+  refine ⟨storeAct b.blk j x, ⟨j, x, rfl, l, u⟩, ?_⟩
+  rw [hj]
+  have hc := C02.capacity_mul_le b
+  have : b.ch * e ≤ b.ch * b.capacity := Nat.mul_le_mul_left _ he
+  exact absH_store hp b.blk j x (b.off + b.cap) hw.2 (by omega)
+
 /-- non-vacuity: two writers on the two frames of a 2-channel, 2-frame buffer; both orders agree -/
 example :
     let t1 : Thread (Nat × Nat) (Option Int) := [storeAct 0 0 5, storeAct 0 1 6]
